@@ -57,7 +57,7 @@ R_EHEP == {"00", "I", "II", "III", "IV", "V", "0H", "0V", "None"}
 G_EHEP == {<<a, "cont", b>> : a \in R_EHEP \ {"0H", "00"}, b \in R_EHEP \ {"0H", "00"}}
           \cup {<<a, "detonation", "0H">> : a \in {"I", "III", "IV", "V"}}
           \cup {<<"00", "piston", b>> : b \in {"I", "II", "III", "IV", "V"}} \cup {<<"0H", "interface", "0V">>}
-Families == {"Noh", "Noh2", "Noh2Cog", "Sedov", "EPpiston", "EHEP", "Mader"} \cup {"Blake", "SuOlson"} \cup BurnFams \cup RiemannFams \cup PlainFams \cup CogNone \cup CogDiv \cup CogFull \cup CogShock
+Families == {"Noh", "Noh2", "Noh2Cog", "Sedov", "EPpiston", "EHEP", "Mader"} \cup {"Blake", "SuOlson", "RadShock"} \cup BurnFams \cup RiemannFams \cup PlainFams \cup CogNone \cup CogDiv \cup CogFull \cup CogShock
 
 Cat == [f \in Families |->
   CASE f = "Noh"        -> Row("gamma", "euler",   "closed", {"post", "pre"}, G_PostPre, FALSE)
@@ -67,6 +67,7 @@ Cat == [f \in Families |->
     [] f = "EPpiston"   -> RowF("additive", "none", "closed", {"plastic", "elastic", "rest"}, G_Piston, FALSE, {"rest"})
     [] f = "EHEP"       -> RowF("gamma", "euler", "ehep", R_EHEP, G_EHEP, TRUE, {})
     [] f = "Mader"      -> RowF("cjisentrope", "none", "table", {"mader"}, G_Smooth, FALSE, {})
+    [] f = "RadShock"   -> RowF("radshock", "none", "ode", {"all"}, G_Smooth, FALSE, {})
     [] f = "SuOlson"    -> RowF("suolson", "none", "root", {"all"}, G_Smooth, FALSE, {})
     [] f = "Blake"      -> RowF("none", "none", "closed", {"he"}, G_Smooth, FALSE, {})
     [] f \in BurnFams   -> RowF("none", "none", "closed", {"detonator", "he"}, G_Smooth, FALSE, {})
@@ -110,6 +111,9 @@ FieldLaws(f) ==
                                   "pressure", "dev_rr", "dev_qq", "stress_diff", "cavity", "zero-ahead"}, ineq |-> {}]
     [] f \in {"Rod1D", "RodNH", "Sandwich", "Hutchens1", "Hutchens2", "Rectangle", "CylSandwich"}
                       -> [eq |-> {"heat", "bc-left", "bc-right", "bc-bottom", "bc-top", "bc-surface", "initial", "steady", "regular"}, ineq |-> {}]
+    [] f = "RadShock" -> [eq |-> {"mass-flux", "momentum-flux", "energy-flux", "upstream.rho", "upstream.T", "upstream.mach", "upstream.equilibrium",
+                                  "downstream.equilibrium"} \cup {"steady." \o n : n \in {"temperature", "temperature_mat", "temperature_rad", "density", "velocity",
+                                  "pressure", "specific_internal_energy", "rade", "sound_speed"}}, ineq |-> {}]
     [] f = "SuOlson"  -> [eq |-> {"rad", "mat", "marshak"}, ineq |-> {"v<=u", "u<=1", "v>=0", "decay", "mono-x", "mono-t"}]
     [] OTHER -> [eq |-> {}, ineq |-> {}]
 
